@@ -1492,9 +1492,10 @@ impl PayloadContent {
             }
             PayloadContent::NetworkTrace(slices) => {
                 for slice in slices {
-                    // type-info (rawd)
-                    const TYPE_INFO_BYTES: &[u8] = &[0x00, 0x04, 0x00, 0x00];
-                    buf.extend_from_slice(TYPE_INFO_BYTES);
+                    // type-info (rawd), in the byte order of the message like every payload field
+                    let mut type_info_buf = [0; 4];
+                    T::write_u32(&mut type_info_buf, TYPE_INFO_RAW_FLAG);
+                    buf.extend_from_slice(&type_info_buf);
 
                     // len (16bit)
                     let mut tmp_buf = [0; 2];
